@@ -407,11 +407,23 @@ async fn h_write(w: &mut StreamWriter<SimWrite>, st_world: &Shared, idx: usize, 
     // like write_all: each call may accept at most 65535 bytes
     loop {
         let chunk = &data[off..];
-        let r = poll_fn(|cx| Pin::new(&mut *w).poll_write(cx, chunk)).await;
+        // sometimes the first poll offers only a prefix and later polls a longer buffer (a write that was
+        // abandoned while Pending and retried with more data): the record announced by the first poll must
+        // still carry exactly its bytes
+        let first_len = { let mut wl = lock(st_world); if chunk.len() > 1 && wl.cx.ch.chance(1, 5) { let l = wl.cx.ch.range(1, chunk.len() - 1); wl.cx.probe("write_repolled_with_longer_buffer"); l } else { chunk.len() } };
+        let mut polls = 0u32;
+        let r = poll_fn(|cx| {
+            let b = if polls == 0 { &chunk[..first_len] } else { chunk };
+            polls += 1;
+            Pin::new(&mut *w).poll_write(cx, b)
+        }).await;
         match r {
             Ok(n) => {
                 let mut wl = lock(st_world);
                 wl.cx.ev("h_write_ok", n as u64, u64::from(stream));
+                if n != first_len.min(65535) {
+                    wl.handler_log[idx].violation.get_or_insert(Violation::new("c10_write_count", "announced_length", format!("poll_write returned {n} for a record set up with a {first_len}-byte buffer (re-polled {} times with {} bytes)", polls - 1, chunk.len())));
+                }
                 let inv = &mut wl.handler_log[idx];
                 inv.writes.push((stream, chunk[..n.min(chunk.len())].to_vec(), n));
                 if n > chunk.len() || (n == 0 && !chunk.is_empty()) {
@@ -1205,7 +1217,7 @@ pub fn c09(cx: &mut Ctx) -> VResult {
     Ok(())
 }
 
-pub const C10_PROBES: &[&str] = &["writers_2plus", "write_65535_capped", "zero_length_write", "reply_between_writer_records"];
+pub const C10_PROBES: &[&str] = &["write_repolled_with_longer_buffer", "writers_2plus", "write_65535_capped", "zero_length_write", "reply_between_writer_records"];
 
 /// C10: concurrent writers + reply flushing: complete, non-interleaved records.
 pub fn c10(cx: &mut Ctx) -> VResult {
